@@ -11,6 +11,7 @@ def assigned_names(nodes):
     """Local names (and attribute/global targets) syntactically assigned in a statement list."""
     names = set()
     attrs = set()
+    receivers = set()
 
     class V(ast.NodeVisitor):
         def target(self, t):
@@ -47,7 +48,10 @@ def assigned_names(nodes):
             # mutating list methods rebind the receiver variable
             if isinstance(n.func, ast.Attribute) and n.func.attr in (
                     'append', 'pop', 'remove', 'extend', 'insert', 'clear', 'update'):
-                self.target(n.func.value)
+                if isinstance(n.func.value, ast.Name):
+                    receivers.add(n.func.value.id)
+                else:
+                    self.target(n.func.value)
             self.generic_visit(n)
 
         def visit_ListComp(self, n):
@@ -56,7 +60,8 @@ def assigned_names(nodes):
     v = V()
     for n in nodes:
         v.visit(n)
-    return names, attrs
+    assigned_names.last_receivers = receivers - names
+    return names | receivers, attrs
 
 
 class StmtMixin:
@@ -398,6 +403,12 @@ class StmtMixin:
 
     def havoc_loop(self, st, body_nodes, lc, line, extra_names=()):
         names, attrs = assigned_names(body_nodes)
+        # a name that is only the receiver of a mutating method call is rebound only if it holds
+        # a list value (objects are mutated through the heap, the reference stays the same)
+        for r in set(assigned_names.last_receivers):
+            cur = st.env.get(r)
+            if cur is not None and cur is not UNBOUND and isinstance(cur.t, TRef):
+                names.discard(r)
         names |= set(extra_names)
         topc = self.m.contracts.get(self.cur_fn_stack[0])
         if topc is not None and len(self.cur_fn_stack) == 1:
